@@ -429,8 +429,14 @@ class WorkflowConductor(object):
         # Create an event for the request.
         wf_ex_event = events.WorkflowExecutionEvent(status)
 
-        # Reject the request before any task is affected if there is no such workflow transition.
-        if not machines.WorkflowStateMachine.is_transition_valid(current_status, status):
+        # Reject the request before any task is affected if the workflow has no transition for
+        # the request from its current status, whatever the tasks are doing.
+        transitions = machines.WORKFLOW_STATE_MACHINE_DATA.get(current_status, {})
+        contextualized = wf_ex_event.name + "_workflow_"
+
+        if status != current_status and not any(
+            e == wf_ex_event.name or e.startswith(contextualized) for e in transitions
+        ):
             raise exc.InvalidWorkflowStatusTransition(current_status, wf_ex_event.name)
 
         # Push the event to all the active tasks. The event may trigger status changes to the task.
